@@ -27,6 +27,10 @@ CONSTANTS
     BaseVals,     \* values committed storage (blockchain hook) may hold before the transaction
     CallValues,   \* call values of nested calls
     Amounts,      \* values of explicit Transfer calls
+    Codes,        \* return codes a contract may return: 0 = vmcommon.Ok, every other value is a failure
+                  \* (vmcommon.ReturnCode 1..12: FunctionNotFound, FunctionWrongSignature, ContractNotFound, UserError,
+                  \* OutOfGas, AccountCollision, OutOfFunds, CallStackOverFlow, ContractInvalid, ExecutionFailed,
+                  \* UpgradeFailed, SimulateFailed); the property treats all failures alike
     MaxDepth,     \* maximum number of pending nested activations
     MaxTransfers, \* bound on the number of output-transfer records created in one transaction
     Deploys,      \* BOOLEAN: DeploySystemSC is part of Next
@@ -157,10 +161,12 @@ Deploy(dest, v) ==
 
 WantOf(f) == [upd |-> f.snapUpd, acc |-> f.snapAcc, acccv |-> f.acc, sc |-> f.sc, on |-> TRUE]
 
-\* the callee returns: rest of ExecuteOnDestContext / DeploySystemSC including the deferred mergeContext
-Return(ok) ==
+\* the callee returns `code`: rest of ExecuteOnDestContext / DeploySystemSC including the deferred mergeContext.
+\* The code distinguishes Ok (0) from "anything else"; no failure code is special.
+Return(code) ==
     /\ saved # <<>>
-    /\ LET f == Top IN
+    /\ LET f == Top
+           ok == code = 0 IN
        /\ saved' = SubSeq(saved, 1, Len(saved) - 1)
        /\ sc' = f.sc
        /\ IF f.via = "exec"
@@ -176,7 +182,7 @@ Return(ok) ==
        /\ ret' = IF ok THEN "ok" ELSE "fail"
        /\ want' = IF ok THEN NoWant ELSE WantOf(f)
        /\ UNCHANGED <<base, nt>>
-       /\ hist' = Log(hist, Rec("Return", [ok |-> ok, via |-> f.via, depth |-> Len(saved)],
+       /\ hist' = Log(hist, Rec("Return", [code |-> code, ok |-> ok, via |-> f.via, depth |-> Len(saved)],
                                 IF ok THEN [x |-> 0] ELSE [want |-> WantProj(WantOf(f))]))
 
 \* ExecuteOnDestContext to an address without a contract: GetContract fails after the transfer, the
@@ -190,14 +196,15 @@ CallMissing(dest, sender, v) ==
        /\ hist' = Log(hist, Rec("CallMissing", [dest |-> dest, sender |-> sender, v |-> v],
                                 [want |-> WantProj(WantOf(f))]))
 
-Next ==
+NextOther ==
     \/ \E k \in Keys, v \in Vals : Set(sc, k, v)
     \/ \E d \in Addrs, v \in Amounts : Transfer(d, sc, v)
     \/ (Balances /\ \E a \in Addrs : GetBalance(a))
     \/ \E d \in SCs, v \in CallValues : Call(d, sc, v)
     \/ \E d \in Others, v \in CallValues : CallMissing(d, sc, v)
     \/ (Deploys /\ \E d \in SCs, v \in CallValues : Deploy(d, v))
-    \/ \E ok \in BOOLEAN : Return(ok)
+
+Next == NextOther \/ \E code \in Codes : Return(code)
 
 Spec == Init /\ [][Next]_vars
 
